@@ -16,7 +16,8 @@ From EC Require Import Lib.Outcome Lib.ListW Model.Msgs Model.Replica Model.Repl
   Model.ProtocolSync Proofs.ReplicaLive Proofs.ProtocolRefinesExec Proofs.ProtocolRefinesExample
   Proofs.ProtocolLive Proofs.ProtocolLiveInv Proofs.ProtocolLiveExample
   Proofs.ProtocolLiveCatch Proofs.ProtocolLiveNoStop Proofs.ProtocolLiveCommitStep
-  Proofs.ProtocolLiveCommitLock Proofs.ProtocolLiveCommit Proofs.ProtocolLiveGoals.
+  Proofs.ProtocolLiveCommitLock Proofs.ProtocolLiveCommit Proofs.ProtocolLiveTimeoutStep
+  Proofs.ProtocolLiveTimeoutLock Proofs.ProtocolLiveTimeout Proofs.ProtocolLiveGoals.
 From EC Require Proofs.ReplicaCaches Proofs.ReplicaJustified Proofs.ProtocolRefinesStep.
 Import ListNotations.
 Open Scope Z_scope.
@@ -343,6 +344,49 @@ Theorem C06G_progress_honest_leaders : forall P pay fetch (r : nat), params_ok P
 Proof. exact progress_honest_leaders_holds. Qed.
 Print Assumptions C06G_progress_honest_leaders.
 
+(* the timeout twin of (d): a waiting view without a verifying proposal on the network is
+   abandoned by every honest node in the same round, two rounds later (view exactly V+1, phase
+   Prepare, nothing lost).  If the leader of V+1 is honest, its proposal for the justification
+   its proposer was notified of (its own timeout certificate for V) is then on the network --
+   with the payload [proposal_payload] computes from get_implied_block of that certificate,
+   i.e. the environment's payload for a new block or none for a forced re-proposal -- and it is
+   the only verifying proposal for V+1; if that leader is Byzantine there is no verifying
+   proposal for V+1 on the network. *)
+Theorem C06G_view_times_out : forall P pay fetch, params_ok P -> env_ok P pay -> forall s V n,
+  preach P s -> headroom P s 4 -> 0 < V -> waiting P s V n -> no_proposal P s V ->
+  forall k0, honestb P k0 = true ->
+  let s2 := sync_rounds P pay fetch 2 s in
+  let L' := cleader (pcfg P 0) (V + 1) in
+  (forall k, honestb P k = true ->
+     up s2 k /\ hview s2 k = V + 1 /\ r_phase (n_live (g_node s2 k)) = Prepare /\ height s k <= height s2 k) /\
+  (honestb P L' = true ->
+     exists tq p, vnum (tqview tq) = V /\
+       justification_verify (p_g P) (p_e P) (p_C P) (JTimeout tq) = Ok tt /\
+       proposal_payload P pay (JTimeout tq) = Some p /\
+       In {| m_key := L'; m_sig_ok := true; m_msg := MProposal p (JTimeout tq) |} (g_soup s2) /\
+       (forall m p' j' mv', In m (g_soup s2) -> m_msg m = MProposal p' j' -> m_key m = L' -> m_sig_ok m = true ->
+          justification_view (E := unit) true j' = Ok mv' -> vnum mv' = V + 1 ->
+          justification_verify (p_g P) (p_e P) (p_C P) j' = Ok tt -> p' = p /\ j' = JTimeout tq)) /\
+  (honestb P L' = false -> no_proposal P s2 (V + 1)).
+Proof. exact view_times_out_holds. Qed.
+Print Assumptions C06G_view_times_out.
+
+Theorem C06G_no_proposal_unfold : forall P s V,
+  no_proposal P s V <->
+  (forall m p' j' mv', In m (g_soup s) -> m_msg m = MProposal p' j' ->
+     justification_view (E := unit) true j' = Ok mv' -> vnum mv' = V ->
+     justification_verify (p_g P) (p_e P) (p_C P) j' = Ok tt -> False).
+Proof. exact (fun P s V => iff_refl _). Qed.
+Print Assumptions C06G_no_proposal_unfold.
+
+(* the latest timeout view a running honest node has recorded for an honest validator is the
+   view of a timeout vote that validator put on the network *)
+Theorem C06G_timeout_views_provenance : forall P s, preach P s -> forall k, n_alive (g_node s k) = true ->
+  forall h v, honestb P h = true -> zmap_get (r_timeout_views (n_live (g_node s k))) h = Some v ->
+  exists t, vnum (tview t) = v /\ In {| m_key := h; m_sig_ok := true; m_msg := MTimeout t |} (g_soup s).
+Proof. exact preach_TV. Qed.
+Print Assumptions C06G_timeout_views_provenance.
+
 (* ingredients of (d) *)
 (* through Layers A and B: a verifying commit certificate without forged signatures is for a
    view below V when every honest node's durable position is below (V, Commit); likewise for
@@ -468,6 +512,12 @@ Example C06G_example_honest_leaders :
   (forall i, (1 <= i < 2)%nat -> honestb ex_P (cleader (pcfg ex_P 0) (1 + Z.of_nat i)) = true).
 Proof. exact (conj ex_headroom_s1 ex_honest_leaders). Qed.
 Print Assumptions C06G_example_honest_leaders.
+
+Example C06G_example_view_times_out :
+  preach ex_P6 ex_s6 /\ headroom ex_P6 ex_s6 4 /\ waiting ex_P6 ex_s6 1 0 /\ no_proposal ex_P6 ex_s6 1 /\
+  honestb ex_P6 (cleader (pcfg ex_P6 0) 1) = false /\ honestb ex_P6 1 = true.
+Proof. exact ex_view_times_out_hyps. Qed.
+Print Assumptions C06G_example_view_times_out.
 
 (* a silent Byzantine leader costs one view: 6 validators, validator 2 Byzantine *)
 Example C06G_example_byz_leader :
